@@ -1101,8 +1101,11 @@ impl ValueTable {
 			log.read(&mut buf[SIZE_SIZE..entry_size])?;
 			log::trace!(target: "parity-db", "{}: Validated multipart in slot {}", self.id, index);
 		} else {
-			// TODO: check len
 			let (len, _compressed) = buf.read_size();
+			// A damaged log can carry any 15-bit size; the largest one does not fit the buffer.
+			if SIZE_SIZE + len as usize > MAX_ENTRY_BUF_SIZE {
+				return Err(crate::error::Error::Corruption("Bad value entry size in log".into()))
+			}
 			log.read(&mut buf[SIZE_SIZE..SIZE_SIZE + len as usize])?;
 			log::trace!(target: "parity-db", "{}: Validated {}: {}, {} bytes", self.id, index, hex(&buf[SIZE_SIZE..32]), len);
 		}
